@@ -241,7 +241,7 @@ fn case(item: u64, rng: &mut Rng, acc: &mut Acc, quick: bool) {
 
 pub fn run(ctx: &Ctx) -> i32 {
     let quick = ctx.quick();
-    let n_items = ctx.n(300, 5000);
+    let n_items = ctx.n(1500, 10000);
     let acc = par_items(ctx, "C14", n_items, |item, rng, acc| case(item, rng, acc, quick));
     let fin = Finish::new(
         "accepted connected graphs, D=1..6, 1-4 loops, every sector for E<=4 (random sectors above). (1) taint monitor: the unmodified generic sample() runs with a scalar type carrying the set of x-space coordinates each value depends on (comparisons recorded as control dependence): \
